@@ -78,8 +78,18 @@ def rule_S1(ctx: Ctx) -> None:
         for sub in ast.walk(v):
             if isinstance(sub, ast.Subscript) and isinstance(sub.slice, ast.Slice) and N.const_int(sub.slice.step) == -1:
                 pathv = X.U(sub.value)
-        rev_call = [c for c in ast.walk(v) if isinstance(c, ast.Call) and dotted_of(c.func) in ("reversed", "list")]
-        ok_ret = goal_if is not None and (pathv is not None or bool(rev_call))
+        rev_call = [c for c in ast.walk(v) if isinstance(c, ast.Call) and dotted_of(c.func) in ("reversed",) and c.args]
+        if pathv is None and rev_call:
+            pathv = X.U(rev_call[0].args[0])
+        if pathv is None and goal_if is not None:
+            # in-place reversal directly before the return: `L.reverse()` ... `return np.array(L)`
+            blk = goal_if.body
+            if rets[0] in blk:
+                for st in blk[: blk.index(rets[0])]:
+                    if isinstance(st, ast.Expr) and isinstance(st.value, ast.Call) and isinstance(st.value.func, ast.Attribute) and st.value.func.attr == "reverse" \
+                            and not st.value.args and any(isinstance(x, ast.Name) and x.id == X.U(st.value.func.value) for x in ast.walk(rets[0].value)):
+                        pathv = X.U(st.value.func.value)
+        ok_ret = goal_if is not None and pathv is not None
         slot["reversed_chain"] = pathv
     elif any(r.value is None or (isinstance(r.value, ast.Constant) and r.value.value is None) for r in rets):
         ok_ret = False
@@ -90,16 +100,23 @@ def rule_S1(ctx: Ctx) -> None:
     ctx.judge(f, ok_ret and exc == "ValueError" and len(rets) == 1, slot, exp,
               "an unreachable goal yields a (None / partial) path instead of ValueError, or a path is returned before the goal is popped")
     # reconstruction: follow `source` from the goal back to the start
-    src_reads = [n for n in ast.walk(f.node) if isinstance(n, ast.While) and " in " in X.U(n.test) and n is not lp]
+    src_reads = [n for n in ast.walk(f.node) if isinstance(n, ast.While) and isinstance(n.test, ast.Compare) and len(n.test.ops) == 1 and isinstance(n.test.ops[0], ast.In) and n is not lp]
     ok = None
     if src_reads:
         w = src_reads[0]
-        srcname = X.U(w.test).split(" in ")[-1]
-        p = X.U(w.test).split(" in ")[0]
-        step = any(isinstance(s, ast.Assign) and X.U(s.targets[0]) == p and X.U(s.value) == f"{srcname}[{p}]" for s in w.body)
-        app = any(isinstance(s, ast.Expr) and isinstance(s.value, ast.Call) and X.U(s.value.func).endswith(".append") and X.U(s.value.args[0]) == p for s in w.body)
-        order = [X.U(s)[:40] for s in w.body]
-        ok = step and app and [i for i, s in enumerate(w.body) if isinstance(s, ast.Assign)][0] < [i for i, s in enumerate(w.body) if isinstance(s, ast.Expr)][0]
+        srcname = X.U(w.test.comparators[0])
+        p = X.U(w.test.left)
+        if isinstance(w.test.left, ast.Name):
+            # cursor form: `p = source[p]` then `L.append(p)`
+            step = any(isinstance(s, ast.Assign) and X.U(s.targets[0]) == p and X.U(s.value) == f"{srcname}[{p}]" for s in w.body)
+            app = any(isinstance(s, ast.Expr) and isinstance(s.value, ast.Call) and X.U(s.value.func).endswith(".append") and X.U(s.value.args[0]) == p for s in w.body)
+            ia = [i for i, s in enumerate(w.body) if isinstance(s, ast.Assign)]
+            ie = [i for i, s in enumerate(w.body) if isinstance(s, ast.Expr)]
+            ok = bool(step and app and ia and ie and ia[0] < ie[0])
+        else:
+            # tail form: `while L[-1] in source: L.append(source[L[-1]])`
+            lst = X.U(w.test.left.value) if isinstance(w.test.left, ast.Subscript) and N.const_int(w.test.left.slice) == -1 else None
+            ok = lst is not None and len(w.body) == 1 and X.same_expr(w.body[0].value if isinstance(w.body[0], ast.Expr) else None, f"{lst}.append({srcname}[{lst}[-1]])")
     ctx.judge(f, ok, {"chain_loop": X.U(src_reads[0].test) if src_reads else None},
               "the path is rebuilt by following the predecessor map from the goal until a node without predecessor (the start)")
 
@@ -254,6 +271,8 @@ def rule_S5(ctx: Ctx) -> None:
         ok = X.U(key.body) == f"{fmap}[{arg}]" if fmap else None
         if fmap and X.U(key.body) != f"{fmap}[{arg}]":
             ok = False
+    elif fn == "min" and key is not None and fmap and X.U(key) in (f"{fmap}.get",):
+        ok = True
     elif fn == "max":
         ok = False
     elif fn == "min" and key is None:
@@ -390,6 +409,10 @@ def rule_S8(ctx: Ctx) -> None:
     ctx.judge(f, ok, slot, "a neighbour not yet in the open set is added to it (every path to the cost store of a neighbour not known to be open passes the insertion)")
     # g of the start
     g0 = [s for s in pre if isinstance(s, ast.Assign) and X.U(s.targets[0]) == f"{gmap}[{S['start']}]"]
+    for s in pre:
+        if isinstance(s, (ast.Assign, ast.AnnAssign)) and getattr(s, "value", None) is not None and X.U(s.targets[0] if isinstance(s, ast.Assign) else s.target) == gmap \
+                and isinstance(s.value, ast.Dict) and any(k is not None and X.U(k) == S["start"] for k in s.value.keys):
+            g0.append(s)
     ctx.judge(f, len(g0) >= 1, {"g_start_stores": [X.U(s) for s in g0]},
               "the start has an initial cost entry (any constant offset shifts all costs uniformly and preserves their order)")
     # closed set (optional): if present, it is a skip on membership and the popped node is added
